@@ -14,6 +14,9 @@ export CARGO_NET_OFFLINE=true
   python3 "$ROOT/tools/gen_prog.py" --seed 0 --out "$ROOT/engine/h_prog/src/generated.rs"
   cargo build --release --offline -p h_prog
 )
+# coverage-guided targets (thorough tier of C03, C04, C12); not fatal when the nightly tool chain is missing
+(cd "$ROOT/fuzz/zv" && cargo +nightly fuzz build --fuzz-dir . >/dev/null 2>&1) || echo 'setup: fuzz/zv not built'
+(cd "$ROOT/fuzz/zb" && cargo +nightly fuzz build --fuzz-dir . >/dev/null 2>&1) || echo 'setup: fuzz/zb not built'
 # warm the feature-matrix target dir (C35) so that its quick tier only pays for the differences
 cd "$ROOT"
 unset RUSTFLAGS
